@@ -144,7 +144,7 @@ ValidateMergeOK == \A a, b \in States : MapValidateMerge(ValDesc, a, b) = "Ok"
 ExpVM(a, b) ==
   IF \E k1 \in DOMAIN a.entries, k2 \in DOMAIN b.entries, x \in Actors :
         k1 # k2 /\ a.entries[k1].clock[x] > 0 /\ b.entries[k2].clock[x] = a.entries[k1].clock[x]
-  THEN "DoubleSpentDot"
+  THEN (IF MapValidateMerge(ValDesc, a, b) # "Ok" THEN MapValidateMerge(ValDesc, a, b) ELSE "DoubleSpentDot")   \* SOME error; which of several is reported first is the algorithm's choice
   ELSE MapValidateMerge(ValDesc, a, b)
 \* C07
 FreshDot ==
